@@ -56,8 +56,10 @@ def gen_triple(rng, tier):
             else:
                 ch = bytes([rng.randrange(256)]) * rng.choice([1, 1, 2, 7])
             ops.append("P:" + g.hx(ch))
-        elif r < 0.83:
+        elif r < 0.81:
             ops.append("F")
+        elif r < 0.85:
+            ops.append("R")      # reopen_outputfile() with the file in place: what is counted and buffered must not depend on the mode
         elif r < 0.93 and crit:
             ops.append("T")
         else:
